@@ -83,7 +83,7 @@ def computeYear (year : Int) (solar : Solar) (terms : List Solar) : Int Ã— Int Ã
       let (g, z) := if strGe solarYmd liChunYmd then (yg + 1, yz + 1) else (yg, yz)
       let (gE, zE) := if strGe solarYmdHms liChunYmdHms then (yg + 1, yz + 1) else (yg, yz)
       (g, z, gE, zE)
-    else (yg, yz, yg, yz)
+    else (yg - 1, yz - 1, yg - 1, yz - 1)   -- lunar year leads the civil year (after the `fix:` commit)
   let fix := fun (v m : Int) => (if v < 0 then v + m else v) % m
   (yg, yz, fix g 10, fix z 12, fix gE 10, fix zE 12)
 
